@@ -45,7 +45,7 @@ M = [
  ('repoint-rebuilds-fresh-pins', 'spydrnet/ir/instance.py',
   "                        outer_pin = self._pins.pop(cur_pin)\n                        outer_pin._inner_pin = new_pin\n                        self._pins[new_pin] = outer_pin\n",
   "                        self._pins.pop(cur_pin)\n                        self._pins[new_pin] = OuterPin(self, new_pin)\n",
-  [('Instance', 'reference', 'setter')], 'Instance.reference='),
+  [('Instance', 'reference', 'setter')], 'DEGRADED'),      # the loop now allocates: outside the frame its invariant declares -> leaves the subset (the history harness has the postcondition)
  ('create-child-no-rollback', 'spydrnet/ir/definition.py',
   "        try:\n            self.add_child(instance)\n        except Exception:\n            instance.reference = None\n            raise\n", "        self.add_child(instance)\n",
   [('Definition', 'create_child', 'method')], 'C14/Definition.create_child/exit=ValueError@hook/frame._references'),
